@@ -100,11 +100,15 @@ Definition corr_ok (c : c24case) : bool :=
       let kept := negb (siblingStale mtime (mtime + delta)) in
       let one (o : fsobs) (isHead : bool) :=
         if negb (IfModifiedSince ims lmt) then (ob_status o =? 304)
-        else (ob_status o =? 200) && beq (ob_lm o) (spec_format_http_date lmt) && beq (ob_ce o) strGzip
-             && (isHead || match ob_decoded o with
-                           | Some d => body_is d (slice 0 (if kept then size + 1 else size))
-                           | None => false
-                           end) in
+        else (ob_status o =? 200) && beq (ob_lm o) (spec_format_http_date lmt)
+             && (if kept then beq (ob_ce o) strGzip      (* the sibling itself *)
+                 else true)                              (* re-created: gzip, or identity when the file is not compressible *)
+             && (isHead ||
+                 if beq (ob_ce o) [] then body_is (ob_body o) (slice 0 size)
+                 else match ob_decoded o with
+                      | Some d => body_is d (slice 0 (if kept then size + 1 else size))
+                      | None => false
+                      end) in
       one g false && one h true
   | CFs _ size mtime now ranges compress brotli zstd range ims ae g h =>
       (* the codec variable: did openFSFile produce a compressed variant, and how long is it *)
